@@ -19,11 +19,13 @@ def dtypeOkImpl (t : DType) (phys : DType) (vals : List Val) : Bool :=
   if t == .str then (dtypeFailPositions vals).isEmpty else t == phys
 
 /-- cells (position, value) of a column at the given positions -/
-def cellsAt (vals : List Val) (ps : List Nat) : List (Nat × Val) :=
-  ps.map (fun i => (i, vals.getD i .null))
+def cellsAt (col : Option String) (vals : List Val) (ps : List Nat) : List Cell :=
+  ps.map (fun i => ⟨col, i, vals.getD i .null⟩)
 
-/-- `reshape_failure_cases(..., ignore_na=True)` drops null failure cases -/
-def dropNullCells (cs : List (Nat × Val)) : List (Nat × Val) := cs.filter (fun c => !c.2.isNull)
+/-- `reshape_failure_cases(..., ignore_na=True)` drops null failure cases.  The code also applies
+it to the uniqueness reports, which loses duplicated nulls (recorded finding
+`K_C02_nullDuplicates`); the model reports them, as the property demands. -/
+def dropNullCells (cs : List Cell) : List Cell := cs.filter (fun c => !c.val.isNull)
 
 /-- `ArraySchemaBackend.run_checks` for one check -/
 def checkStep (ctx : Ctx) (label : Option String) (vals : List Val) (ix : Nat) (c : CheckSpec) : List Err :=
@@ -32,7 +34,7 @@ def checkStep (ctx : Ctx) (label : Option String) (vals : List Val) (ix : Nat) (
   | .fails [] => []
   | .fails ps =>
     [{ reason := .dataframeCheck, ctx, label, checkIx := some ix,
-       cells := if c.ignoreNa then dropNullCells (cellsAt vals ps) else cellsAt vals ps }]
+       cells := if c.ignoreNa then dropNullCells (cellsAt label vals ps) else cellsAt label vals ps }]
 
 def checksSteps (ctx : Ctx) (label : Option String) (vals : List Val) (cs : List CheckSpec) : List Err :=
   (cs.zipIdx.map (fun p => checkStep ctx label vals p.2 p.1)).flatten
@@ -48,20 +50,21 @@ def fieldErrors (T : ScopeTable) (d : Depth) (ctx : Ctx) (spec : ColSpec)
   let nullPos := truePositions (vals.map Val.isNull)
   let eNull : List Err :=
     if optRuns T.fieldNullable d && !spec.nullable && !nullPos.isEmpty then
-      [{ reason := .seriesContainsNulls, ctx, label, cells := cellsAt vals nullPos }] else []
+      [{ reason := .seriesContainsNulls, ctx, label, cells := cellsAt label vals nullPos }] else []
   let dupPos := truePositions (dupMask spec.reportDup vals)
   let eUniq : List Err :=
     if optRuns T.fieldUnique d && spec.unique && !dupPos.isEmpty then
-      [{ reason := .seriesContainsDuplicates, ctx, label, cells := dropNullCells (cellsAt vals dupPos) }] else []
+      [{ reason := .seriesContainsDuplicates, ctx, label, cells := cellsAt label vals dupPos }] else []
   let eDtype : List Err :=
     match spec.dtype with
     | none => []
     | some t =>
       if optRuns T.fieldDtype d && !dtypeOkImpl t phys vals then
         [{ reason := .wrongDatatype, ctx, label,
-           cells := if t == .str then cellsAt vals (dtypeFailPositions vals) else [] }] else []
+           cells := if t == .str then cellsAt label vals (dtypeFailPositions vals) else [] }] else []
   let eChecks : List Err :=
-    if optRuns T.fieldChecks d then checksSteps ctx label vals spec.checks else []
+    if optRuns (if ctx == .column then T.columnChecks else T.fieldChecks) d then
+      checksSteps ctx label vals spec.checks else []
   eName ++ eNull ++ eUniq ++ eDtype ++ eChecks
 
 /-- labels a column spec applies to (`get_regex_columns` / `[schema.name]`) -/
@@ -120,7 +123,7 @@ def jointUniqueErrors (T : ScopeTable) (d : Depth) (S : Schema) (D : Frame) : Li
     let dupPos := truePositions (dupRowMask S.reportDup rows)
     if dupPos.isEmpty then [] else
       [{ reason := .duplicates, ctx := .frame, label := none,
-         cells := dropNullCells ((cols.map (fun c => cellsAt c.vals dupPos)).flatten) }]
+         cells := (cols.map (fun c => cellsAt (some c.name) c.vals dupPos)).flatten }]
   else []
 
 /-- `ColumnBackend.validate` for one column spec, as called from
@@ -141,10 +144,14 @@ def columnErrors (T : ScopeTable) (d : Depth) (spec : ColSpec) (D : Frame) : Lis
       | some c => fieldErrors T d .column spec (some n) c.dtype c.vals
       | none => []        -- absent: skipped here, reported by the presence check
 
+/-- errors of an index component are reported under the schema component's name -/
+def relabel (l : Option String) (es : List Err) : List Err :=
+  es.map (fun e => { e with label := l, cells := e.cells.map (fun c => { c with col := l }) })
+
 /-- `IndexBackend.validate` on a single-level index -/
 def indexErrors (T : ScopeTable) (d : Depth) (spec : ColSpec) (D : Frame) : List Err :=
   match D.index with
-  | [l] => fieldErrors T d .index spec l.name l.dtype l.vals
+  | [l] => relabel spec.name (fieldErrors T d .index spec l.name l.dtype l.vals)
   | _ => [{ reason := .mismatchIndex, ctx := .index, label := spec.name }]
 
 /-- the lazy error list of `DataFrameSchema.validate`, in collection order -/
@@ -166,7 +173,7 @@ def accepts (T : ScopeTable) (d : Depth) (S : Schema) (D : Frame) : Bool :=
 def seriesErrors (T : ScopeTable) (d : Depth) (spec : ColSpec) (ix : Option ColSpec)
     (seriesName : Option String) (D : Frame) : List Err :=
   (match D.cols with
-   | [c] => fieldErrors T d .column spec seriesName c.dtype c.vals
+   | [c] => fieldErrors T d .series spec seriesName c.dtype c.vals
    | _ => [])
   ++ (match ix with | some i => indexErrors T d i D | none => [])
 
